@@ -176,6 +176,24 @@ func (f *sdFam) Reset() M {
 			f.queue = append(f.queue, M{"a": "postproof", "s": p, "f": []interface{}{m, o, h}, "toProve": int64(0), "c": int64(0), "claim": "valid"})
 		}
 	}
+	if f.mode != "forms" && f.rng.Intn(3) == 0 {
+		// scripted prelude of one scenario in three: every provider registers, two files are posted with room for all, and every
+		// prover joins both, so that later reward blocks find provers that miss (or keep) several files at once
+		for _, p := range f.provers {
+			f.queue = append(f.queue, M{"a": "initprovider", "s": p, "dom": f.doms[f.rng.Intn(len(f.doms))]})
+		}
+		h := f.ctx.BlockHeight()
+		for i, m := range f.merkles {
+			if i >= 2 {
+				break
+			}
+			o := f.owners[i%len(f.owners)]
+			f.queue = append(f.queue, M{"a": "postfile", "s": o, "m": m, "sz": f.sizes[m], "mp": int64(len(f.provers))})
+			for _, p := range f.provers {
+				f.queue = append(f.queue, M{"a": "postproof", "s": p, "f": []interface{}{m, o, h}, "toProve": int64(0), "c": int64(0), "claim": "valid"})
+			}
+		}
+	}
 	return f.Project()
 }
 
